@@ -211,7 +211,13 @@ pub fn run(ctx: &mut Ctx) {
             o.limits = lim;
             o.use_peek = rng.chance(1, 2);
             o.max_events = 400_000;
-            if raw + replayed > 3000 && quick {
+            // the hook stops after max_events deliveries: an expansion that large (within the default limit of
+            // 1 000 000 replayed events) cannot be observed to its end and is left out
+            if raw + replayed.min(lim.max_total_replayed_events) + 10 > o.max_events {
+                ctx.count("family_member_beyond_the_hook_cap_skipped");
+                continue;
+            }
+            if raw + replayed > (if quick { 3000 } else { 20_000 }) {
                 // huge expansions are checked by the oracle only (case files stay small)
                 let (r, _) = live::run_pump(text, &o);
                 oracle(ctx, name, label, text, &o, &r, raw, replayed, max_uses);
